@@ -213,7 +213,7 @@ def props_obligations(pid):
             in_ax = False
             continue
         if in_ax:
-            m = re.match(r"^([A-Za-z_][\w.']*)\s*:", line)
+            m = re.match(r"^([A-Za-z_][\w.']*)\s*(:|$)", line)
             if m:
                 axioms.add(m.group(1))
             elif line and not line.startswith(" "):
